@@ -11,6 +11,9 @@ Input : [debug, [step, ...]]
        | ['setsig', s, h]                 between two calls the process installs handler h for SIGNALS[s]
   T    = n | 'neg'                        'neg': a negative timeout - reactor.callLater raises, run() raises before its try/finally
   act  = ['fire', v] | ['fail', e] | 'stop' | 'noop' | 'addsel' | ['setsig', s, h] | ['reenter', fresh]
+  v    = a value token: VALUES[v] for v < len(VALUES) (objects with a hostile ==, falsy-but-valid values), else the int v.
+         "run returns the value f returned or its Deferred fired with" is about the IDENTITY of the value: the harness reports
+         the token of the object that came back, found with `is`.
 Trace : [obs, ...]   (see TTV/Drv/C15.lean)
   obs  = ['run', result, events, reentries, junk, pending, sels, running, stopRestored, sigBefore, sigAfter, elapsed]
        | ['cleared', junk] | ['sigs', handlers now]
@@ -23,6 +26,69 @@ from harness.core import Prop
 SIGNALS = ['SIGINT', 'SIGTERM', 'SIGCHLD', 'SIGUSR1']      # = Spinner.sigNames in TTV/Model/Spinner.lean
 NH = 4                                                      # marker handlers per signal
 REAL_UNIT = 0.04                                            # seconds per time unit in the real-reactor scenarios
+
+
+class Anything:
+    """equal to everything (unittest.mock.ANY style)"""
+
+    def __eq__(self, other):
+        return True
+
+    def __ne__(self, other):
+        return False
+
+    __hash__ = None
+
+
+class NoTruth:
+    """the result of comparing an ArrayLike: it has no truth value"""
+
+    def __bool__(self):
+        raise ValueError('The truth value of an array with more than one element is ambiguous')
+
+
+class ArrayLike:
+    """== yields an object without a truth value (numpy / pandas style)"""
+
+    def __eq__(self, other):
+        return NoTruth()
+
+    __ne__ = __eq__
+    __hash__ = None
+
+
+class Falsy:
+    """an ordinary object that happens to be false and empty"""
+
+    def __bool__(self):
+        return False
+
+    def __len__(self):
+        return 0
+
+
+def _values():
+    from unittest import mock
+    return [Anything(), ArrayLike(), None, 0, '', [], False, 0.0, mock.ANY, (), Falsy(), {}]
+
+
+VALUES = _values()                                          # value token v < len(VALUES) -> VALUES[v]; a larger token is the int itself
+VALUE_NAMES = ['anything', 'arraylike', 'None', '0', 'empty-str', 'empty-list', 'False', '0.0', 'mock.ANY', 'empty-tuple', 'falsy-object',
+               'empty-dict']
+
+
+def value_of(v):
+    return VALUES[v] if v < len(VALUES) else v
+
+
+def token_of(x):
+    """the token of the very object `x` (identity, never ==), or None"""
+    for k, obj in enumerate(VALUES):
+        if x is obj:
+            return k
+    if type(x) is int and x >= len(VALUES):
+        return x
+    return None
 
 
 def _mk_handler(s, h):
@@ -51,12 +117,18 @@ class C15(Prop):
             'ties between firing, timeout and stop are frequent; thorough adds the full grid term x (fire|fail at 1,2,3 before/inside f or '
             'at once) x (stop at 1,2,3 before/inside f or at once) x order x 0-2 leftovers with timeout 2, and two-run histories with and '
             'without clear_junk. non-trivial = some run is not refused and has a Deferred-returning f with at least one delayed fire/fail/stop, '
-            'or the history has a refused or rejected run; distinct = distinct input S-expression. A quarter of the random histories is about '
+            'or the history has a refused or rejected run; the values f returns / its Deferred fires with are drawn from 12 special objects '
+            '(equal to everything, mock.ANY, == without a truth value, None, 0, 0.0, False, empty str/list/tuple/dict, a falsy object) and '
+            'plain ints, and the value that comes back is identified with `is`; every quick run also covers the grid value x (returned | '
+            'already-fired Deferred | fired later before/inside f | fired at the instant of a stop) x timeout 0/3 and a reuse history; distinct = distinct input S-expression. A quarter of the random histories is about '
             'the signal handlers: 2-5 runs on the one Spinner, 40% of them with a negative timeout (reactor.callLater raises, run() raises '
             'before its try/finally), the process installing handlers (4 signals x 4 handler tokens) between the calls, 85% clear_junk; '
             'thorough adds (signal x handler) x rejected call x (signal x handler) x 6 kinds of next run. 13 scenarios on the REAL Twisted '
             'reactor (feature reactor:real) come first in the thorough enumeration, 5 of them are part of every quick run')
     assumptions = [
+        'values are opaque tokens in the model (it never looks at them); the harness maps a token to a Python object and maps the object '
+        'that run() returned back with `is` (identity, never ==), so "returns the value f returned or its Deferred fired with" is '
+        'checked as identity for objects with a hostile == and for falsy values',
         'the reactor loop, DelayedCall ordering/cancellation and Deferred callback chaining (twisted) are modelled (TTV/Model/Reactor.lean), '
         'not verified; the correspondence runs on harness/vreactor.py (a twisted Clock with the iteration semantics of '
         'ReactorBase.runUntilCurrent) except for the real-reactor scenarios',
@@ -211,7 +283,7 @@ class C15(Prop):
                 if kind == 'fire':
                     def go():
                         try:
-                            d.callback(a[1])
+                            d.callback(value_of(a[1]))
                         except AlreadyCalledError:
                             pass
                 elif kind == 'fail':
@@ -274,7 +346,7 @@ class C15(Prop):
                 if term == 'deferred':
                     return d
                 if term[0] == 'ret':
-                    return term[1]
+                    return value_of(term[1])
                 raise KeyError(term[1])
 
             stop0 = r.stop
@@ -285,7 +357,7 @@ class C15(Prop):
             tc_before = sp._timeout_call
             try:
                 x = sp.run(-1 if bad else T * scale, f)
-                res = ['value', x] if type(x) is int else ['odd-value', type(x).__name__]
+                res = ['value', token_of(x)] if token_of(x) is not None else ['odd-value', type(x).__name__]
             except S.TimeoutError:
                 res = 'timeout'
             except S.NoResultError:
@@ -358,13 +430,28 @@ class C15(Prop):
         return [[False, steps, 'real'] for _, steps, quick in self.REAL if quick or not quick_only]
 
     def corpus(self):
-        return Prop.corpus(self) + self.real_inputs(True)
+        return Prop.corpus(self) + self.real_inputs(True) + self.value_grid()
+
+    def value_grid(self):
+        """every value token x every way a value reaches Spinner._got_success: returned by f, carried by an already fired Deferred,
+        by a Deferred fired later (by a call made before run / by f), with timeout 0 where nothing has to be waited for, and once
+        more on the same spinner afterwards"""
+        out = []
+        for v in range(len(VALUES) + 1):
+            runs = [['run', 3, [], [], ['ret', v]], ['run', 0, [], [], ['ret', v]],
+                    ['run', 3, [], [['now', ['fire', v]]], 'deferred'], ['run', 0, [], [['now', ['fire', v]]], 'deferred'],
+                    ['run', 3, [], [['later', 1, ['fire', v]]], 'deferred'], ['run', 3, [[2, ['fire', v]]], [], 'deferred'],
+                    ['run', 2, [], [['later', 1, 'stop'], ['later', 1, ['fire', v]]], 'deferred']]
+            for sc in runs:
+                out.append([False, [sc]])
+            out.append([False, [runs[0], runs[4], ['run', 1, [], [['later', 2, ['fire', v]]], 'deferred'], 'clear', runs[2]]])
+        return out
 
     # ----- generators
     def gen_act(self, rng, main=True):
         k = rng.random()
         if main and k < 0.30:
-            return ['fire', rng.randrange(4)]
+            return ['fire', rng.randrange(len(VALUES) + 3)]
         if main and k < 0.45:
             return ['fail', rng.randrange(4)]
         if k < 0.65:
@@ -391,7 +478,7 @@ class C15(Prop):
                     a = 'noop'
                 body.append(['now', a])
         t = rng.random()
-        term = 'deferred' if t < 0.7 else ['ret', rng.randrange(4)] if t < 0.85 else ['raise', rng.randrange(4)]
+        term = 'deferred' if t < 0.7 else ['ret', rng.randrange(len(VALUES) + 3)] if t < 0.85 else ['raise', rng.randrange(4)]
         return ['run', T, pre, body, term]
 
     def gen(self, rng, tier):
@@ -497,6 +584,8 @@ class C15(Prop):
         for sc, o in zip(self._runs(inp), [o for o in trace if isinstance(o, list) and o[0] == 'run']):
             res = o[1]
             f.append('result:' + (res if isinstance(res, str) else res[0]))
+            if isinstance(res, list) and res[0] == 'value' and isinstance(res[1], int):
+                f.append('value:' + (VALUE_NAMES[res[1]] if res[1] < len(VALUES) else 'int'))
             f.append('term:' + (sc[4] if isinstance(sc[4], str) else sc[4][0]))
             T = 0 if sc[1] == 'neg' else sc[1]
             delayed = [(d, a, 'pre') for d, a in sc[2]] + [(op[1], op[2], 'body') for op in sc[3] if op[0] == 'later']
